@@ -359,6 +359,13 @@ def subchecks(tier, seed):
                          families='gmm full/diagonal/spherical'), require_flags=('increasing',))
     def wide_cases():
         for fam, (model, fopts) in enumerate(FAMILIES):
+            if model == 'gmm' and not fopts.get('fixed_covariance'):
+                # Gaussian features with 16 and 21 dimensions (e.g. embeddings), every covariance type
+                for D in (16, 21):
+                    for ds in ('unclustered', 'loose'):
+                        for st in (0, 1):
+                            yield (fam, (-1,), 'none', 'none', 2, D, 1, ds, st, 8, seed)
+                continue
             if model not in ('cwmm', 'cacgmm') or fopts.get('hermitize') is False or \
                     fopts.get('covariance_norm', 'eigenvalue') != 'eigenvalue':
                 continue
@@ -371,7 +378,7 @@ def subchecks(tier, seed):
                                16 if ds == 'diffuse' else 8, seed)
     wide = Sub('em_many_channels',
                ('family', 'wca', 'sal', 'eps', 'K', 'D', 'F', 'data', 'start', 'n', 'seed'), wide_cases, run_traj,
-               bound=dict(iterations=8, D=[12, 21], K=2, families='cwmm, cacgmm', note='low concentrations in many '
+               bound=dict(iterations=8, D=[12, 16, 21], K=2, families='cwmm, cacgmm, gmm (D = 16, 21)', note='low concentrations in many '
                           'channels'))
     return [big, wide, Sub('em_trajectories',
                 ('family', 'wca', 'sal', 'eps', 'K', 'D', 'F', 'data', 'start', 'n', 'seed'),
